@@ -22,7 +22,7 @@ NAMES = ['sim', 'my_restart_sim', 'sim-v1.2', 'a->b', 'rl = 1 run',
          '3D variables available', 'Checkpoints available at its']
 VARS = ['alp', 'betax', 'betay', 'betaz', 'rho', 'gxx', 'gxy', 'gxz', 'gyy',
         'gyz', 'gzz']
-SHAPES = {0: (4, 3, 5), 1: (3, 4, 3)}
+SHAPES = {0: (4, 3, 5), 1: (3, 4, 3), 2: (3, 4, 3)}
 
 
 def has_fields(got, want):
@@ -105,7 +105,8 @@ def quiet():
 def make_spec(name, pattern, layout, levels):
     grouped, proc = layout
     bx = {0: etgen.tensor_boxes(SHAPES[0], (2, 1, 2)),
-          1: etgen.tensor_boxes(SHAPES[1], (1, 2, 1))}
+          1: etgen.tensor_boxes(SHAPES[1], (1, 2, 1)),
+          2: etgen.tensor_boxes(SHAPES[2], (1, 2, 1))}
     restarts = []
     for p in PATTERNS[pattern.split('+')[0]]:
         if p.get('empty'):
@@ -116,6 +117,10 @@ def make_spec(name, pattern, layout, levels):
         its = {0: p['its0']}
         if levels == 2:
             its[1] = p['its1']
+        elif levels == 3:
+            # a hole in the level numbering (per-variable option
+            # refinement_levels={0 2} of CarpetIOHDF5)
+            its[2] = p['its1']
         restarts.append({'its': its, 'boxes': bx, 'checkpoints': p['chk'],
                          'checkpoint_files': p.get('chkfiles', 1),
                          'variables': (p['extra'] if p.get('only') else
@@ -402,7 +407,7 @@ class System:
             if overall is None:
                 viol.append(("C18:iterations:no-overall", ""))
             else:
-                for rl in range(2):
+                for rl in range(3):
                     union = set()
                     segs = []
                     for r in sorted(self.catalogued):
@@ -654,6 +659,8 @@ def plans(tier):
     for lay in [(True, True), (True, False), (False, False)]:
         cfgs.append((('sim', 'contained_names', lay, 1), 'full', 3))
     cfgs.append((('sim', 'dead_restart', lay0, 2), 'full', 3))
+    cfgs.append((('sim', 'two', lay0, 3), 'full', 3))
+    cfgs.append((('sim', 'three', (True, True), 3), 'full', 3))
     cfgs.append((('sim', 'two+tl', lay0, 2), 'full', 3))
     cfgs.append((('sim', 'three+noise', lay0, 2), 'full', 3))
     cfgs.append((('sim', 'singles+noise', (True, True), 1), 'full', 3))
